@@ -136,7 +136,7 @@ func (b *Built) InstanceOrd(ord int) (*ast.KnowledgeBase, error) {
 	bp := b.Lib.GetKnowledgeBase(KBName, KBVer)
 	b.cloneMu.Lock()
 	defer b.cloneMu.Unlock()
-	setChooser(bp.RuleEntries, func(keys []string) []int { return permOf(len(keys), ord) })
-	defer setChooser(bp.RuleEntries, nil)
+	setCloneChooser(bp.RuleEntries, func(keys []string) []int { return permOf(len(keys), ord) })
+	defer setCloneChooser(bp.RuleEntries, nil)
 	return b.Lib.NewKnowledgeBaseInstance(KBName, KBVer)
 }
